@@ -1635,3 +1635,191 @@ Proof.
   { rewrite RE, P2 in Cy. lra. }
   apply aff_mul_near_id; auto.
 Qed.
+
+(* ================================================================== reprojection output assembly: DataArray *)
+Definition guess_names : list string := ["y"; "x"; "latitude"; "longitude"; "lat"; "lon"].
+
+(** names of the non-spatial dimensions of the source: not one of the names the
+    recovery guesses spatial dimensions by, and different from the spatial pair *)
+Definition other_dims_ok (l : list (string * Z)) (syd sxd : string) : Prop :=
+  forall dn, In dn l -> ~ In (fst dn) guess_names /\ fst dn <> syd /\ fst dn <> sxd.
+
+Lemma filter_aset_nil {V} (p : V -> bool) k v (l : list (string * V)) :
+  filter (fun nc => p (snd nc)) l = [] ->
+  filter (fun nc => p (snd nc)) (aset k v l) = if p v then [(k, v)] else [].
+Proof.
+  induction l as [|(k', v') l IH]; simpl; intros H.
+  - destruct (p v); reflexivity.
+  - destruct (p v') eqn:E; [discriminate|].
+    destruct (String.eqb k k'); simpl.
+    + rewrite H. destruct (p v); reflexivity.
+    + rewrite E. apply IH; exact H.
+Qed.
+
+Lemma filter_filter_nil {V} (p q : V -> bool) (l : list (string * V)) :
+  (forall v, q v = true -> p v = false) ->
+  filter (fun nc => p (snd nc)) (filter (fun nc => q (snd nc)) l) = [].
+Proof.
+  intros H. induction l as [|(k, v) l IH]; simpl; auto.
+  destruct (q v) eqn:E; simpl; auto. rewrite (H v E). exact IH.
+Qed.
+
+Lemma lookup_notin {V} k (l : list (string * V)) : ~ In k (map fst l) -> lookup k l = None.
+Proof.
+  induction l as [|(k', v) l IH]; simpl; auto. intros H.
+  destruct (String.eqb k k') eqn:E; [apply String.eqb_eq in E; subst; tauto | apply IH; tauto].
+Qed.
+
+Lemma index_of_app k pre rest i :
+  ~ In k pre -> index_of k (pre ++ k :: rest) i = Some (i + zlen pre).
+Proof.
+  revert i. induction pre as [|h pre IH]; intros i H; simpl.
+  - rewrite String.eqb_refl. unfold zlen; simpl. f_equal; lia.
+  - destruct (String.eqb k h) eqn:E; [apply String.eqb_eq in E; subst; simpl in H; tauto|].
+    rewrite IH by (simpl in H; tauto). unfold zlen; simpl. f_equal; lia.
+Qed.
+
+Section ReprojDims.
+  Variables (syd sxd dy dx : string) (ny nx : Z).
+  Let F := fun dn : string * Z =>
+             if String.eqb (fst dn) syd then [(dy, ny)]
+             else if String.eqb (fst dn) sxd then [(dx, nx)] else [dn].
+
+  Lemma flat_map_other l : (forall dn, In dn l -> fst dn <> syd /\ fst dn <> sxd) -> flat_map F l = l.
+  Proof.
+    induction l as [|dn l IH]; intros H; simpl; auto.
+    destruct (H dn (or_introl eq_refl)) as (N1 & N2).
+    unfold F at 1. rewrite (eqb_neq _ _ N1), (eqb_neq _ _ N2). simpl. f_equal. apply IH; intros; apply H; now right.
+  Qed.
+
+  Lemma flat_map_dims pre n1 n2 post :
+    syd <> sxd -> other_dims_ok (pre ++ post) syd sxd ->
+    flat_map F (pre ++ [(syd, n1); (sxd, n2)] ++ post) = pre ++ [(dy, ny); (dx, nx)] ++ post.
+  Proof.
+    intros Hne Hok. rewrite !flat_map_app.
+    rewrite (flat_map_other pre) by (intros dn Hd; apply Hok; apply in_or_app; now left).
+    rewrite (flat_map_other post) by (intros dn Hd; apply Hok; apply in_or_app; now right).
+    f_equal. simpl. unfold F; simpl. rewrite String.eqb_refl.
+    rewrite (eqb_neq sxd syd) by congruence. rewrite String.eqb_refl. reflexivity.
+  Qed.
+End ReprojDims.
+
+Lemma smem_app k a b : smem k (a ++ b) = smem k a || smem k b.
+Proof. unfold smem. apply existsb_app. Qed.
+
+Lemma smem_false k l : ~ In k l -> smem k l = false.
+Proof. intros H. destruct (smem k l) eqn:E; auto. apply smem_In in E; contradiction. Qed.
+
+Lemma out_dims_facts pre post syd sxd (c : option crs) ny nx :
+  other_dims_ok (pre ++ post) syd sxd ->
+  let dy := fst (crs_dims c) in
+  let dx := snd (crs_dims c) in
+  let dims := pre ++ [(dy, ny); (dx, nx)] ++ post in
+  spatial_dims (map fst dims) = Some (dy, dx) /\ lookup dy dims = Some ny /\ lookup dx dims = Some nx.
+Proof.
+  intros Hok dy dx dims.
+  assert (Hpre : forall k, In k guess_names -> ~ In k (map fst pre)).
+  { intros k Hk Hin. apply in_map_iff in Hin. destruct Hin as (dn & <- & Hd).
+    destruct (Hok dn) as (N & _); [apply in_or_app; now left | exact (N Hk)]. }
+  assert (Hpost : forall k, In k guess_names -> ~ In k (map fst post)).
+  { intros k Hk Hin. apply in_map_iff in Hin. destruct Hin as (dn & <- & Hd).
+    destruct (Hok dn) as (N & _); [apply in_or_app; now right | exact (N Hk)]. }
+  assert (G : forall k, In k guess_names -> smem k (map fst dims) = smem k [dy; dx]).
+  { intros k Hk. subst dims. rewrite !map_app, !smem_app.
+    rewrite (smem_false k (map fst pre)) by (apply Hpre; exact Hk).
+    rewrite (smem_false k (map fst post)) by (apply Hpost; exact Hk).
+    simpl. now rewrite orb_false_r. }
+  assert (Ldy : lookup dy dims = Some ny /\ lookup dx dims = Some nx).
+  { subst dims. rewrite !lookup_app.
+    assert (In dy guess_names /\ In dx guess_names /\ dx <> dy) as (I1 & I2 & I3).
+    { subst dy dx. destruct (crs_dims_cases c) as [E|E]; rewrite E; simpl; repeat split; try tauto; discriminate. }
+    rewrite (lookup_notin dy pre) by (apply Hpre; exact I1).
+    rewrite (lookup_notin dx pre) by (apply Hpre; exact I2).
+    simpl. rewrite String.eqb_refl. rewrite (eqb_neq dx dy I3). rewrite String.eqb_refl. auto. }
+  split; [|exact Ldy].
+  unfold spatial_dims, guesses. simpl find.
+  rewrite !G by (simpl; tauto).
+  subst dy dx. destruct (crs_dims_cases c) as [E|E]; rewrite E; reflexivity.
+Qed.
+
+Definition keep_pred (syd sxd : string) (c : coord) : bool :=
+  negb (is_spatial_ref c) && disjointb [syd; sxd] (co_dims c).
+
+Definition out_attrs (itol : Q) (a : attrs) (dst_nodata : option Q) : attrs :=
+  match (match dst_nodata with Some v => Some v | None => nodata_of a end) with
+  | None => adel "_FillValue" (adel "nodata" (prune_spatial a))
+  | Some v => aset "nodata" (VNum (maybe_int v itol)) (prune_spatial a)
+  end.
+
+(** attribute pruning / overwrite logic of the output *)
+Lemma out_attrs_spatial itol a nd k : In k SPATIAL_ATTRIBUTES -> lookup k (out_attrs itol a nd) = None.
+Proof.
+  intros H. unfold out_attrs.
+  assert (N : k <> "nodata" /\ k <> "_FillValue").
+  { simpl in H. repeat (destruct H as [<-|H]; [split; discriminate|]). contradiction. }
+  destruct N as (N1 & N2).
+  destruct (match nd with Some v => Some v | None => nodata_of a end).
+  - rewrite lookup_aset_other by auto. apply prune_spatial_removed; exact H.
+  - rewrite !lookup_adel, (eqb_neq _ _ N1), (eqb_neq _ _ N2). apply prune_spatial_removed; exact H.
+Qed.
+
+Lemma out_attrs_other itol a nd k :
+  ~ In k SPATIAL_ATTRIBUTES -> k <> "nodata" -> k <> "_FillValue" ->
+  lookup k (out_attrs itol a nd) = lookup k a.
+Proof.
+  intros H N1 N2. unfold out_attrs.
+  destruct (match nd with Some v => Some v | None => nodata_of a end).
+  - rewrite lookup_aset_other by auto. apply prune_spatial_kept; exact H.
+  - rewrite !lookup_adel, (eqb_neq _ _ N1), (eqb_neq _ _ N2). apply prune_spatial_kept; exact H.
+Qed.
+
+Lemma out_attrs_nodata itol a nd v :
+  nd = Some v \/ (nd = None /\ nodata_of a = Some v) ->
+  lookup "nodata" (out_attrs itol a nd) = Some (VNum (maybe_int v itol)).
+Proof.
+  intros H. unfold out_attrs.
+  destruct H as [->|(-> & ->)]; apply lookup_aset_same.
+Qed.
+
+Lemma out_attrs_no_nodata itol a :
+  nodata_of a = None ->
+  lookup "nodata" (out_attrs itol a None) = None /\ lookup "_FillValue" (out_attrs itol a None) = None.
+Proof.
+  intros H. unfold out_attrs. rewrite H. rewrite !lookup_adel. simpl. auto.
+Qed.
+
+Lemma reproject_da_unfold tol itol src dst nd st sb syd sxd pre n1 n2 post :
+  locate_geo_info repaired tol src = Ok st -> gs_box st = Some sb -> box_crs sb <> None ->
+  gs_sdims st = Some (syd, sxd) ->
+  x_dims src = pre ++ [(syd, n1); (sxd, n2)] ++ post ->
+  syd <> sxd -> other_dims_ok (pre ++ post) syd sxd ->
+  let dy := fst (crs_dims (g_crs dst)) in
+  let dx := snd (crs_dims (g_crs dst)) in
+  reproject_da repaired tol itol src dst nd =
+  (new <- xr_coords tol (ABox dst) (Some DEFAULT_CRS_COORD_NAME) ;;
+   Ok (XObj false (pre ++ [(dy, g_ny dst); (dx, g_nx dst)] ++ post) (Some DEFAULT_CRS_COORD_NAME)
+            (out_attrs itol (x_attrs src) nd)
+            (aupdate (filter (fun nc => keep_pred syd sxd (snd nc)) (x_coords src)) new) [])).
+Proof.
+  intros Hl Hb Hc Hsd Hd Hne Hok dy dx.
+  unfold reproject_da. rewrite Hl. simpl. rewrite Hb.
+  destruct (box_crs sb) as [c0|] eqn:Ec; [|congruence]. rewrite Hsd.
+  assert (Hnames : map fst (x_dims src) = map fst pre ++ syd :: sxd :: map fst post).
+  { rewrite Hd, !map_app. reflexivity. }
+  assert (Hpre : forall k, k = syd \/ k = sxd -> ~ In k (map fst pre)).
+  { intros k Hk Hin. apply in_map_iff in Hin. destruct Hin as (dn & <- & Hdn).
+    destruct (Hok dn) as (_ & N1 & N2); [apply in_or_app; now left|]. destruct Hk; congruence. }
+  rewrite Hnames. cbn [fst snd].
+  rewrite (index_of_app syd (map fst pre) (sxd :: map fst post) 0) by (apply Hpre; auto).
+  replace (map fst pre ++ syd :: sxd :: map fst post) with ((map fst pre ++ [syd]) ++ sxd :: map fst post)
+    by (rewrite <- app_assoc; reflexivity).
+  rewrite (index_of_app sxd (map fst pre ++ [syd]) (map fst post) 0).
+  2:{ intros Hin. apply in_app_or in Hin. destruct Hin as [Hin|[Hin|[]]]; [apply (Hpre sxd); auto | congruence]. }
+  assert (Z1 : (0 + zlen (map fst pre) + 1 =? 0 + zlen (map fst pre ++ [syd])) = true).
+  { apply Z.eqb_eq. unfold zlen. rewrite app_length. simpl. lia. }
+  rewrite Z1. cbn [negb].
+  destruct (xr_coords tol (ABox dst) (Some DEFAULT_CRS_COORD_NAME)) as [new|e]; simpl; [|reflexivity].
+  subst dy dx. destruct (crs_dims (g_crs dst)) as [dy dx] eqn:Ecd. cbn [fst snd].
+  rewrite Hd. rewrite (flat_map_dims syd sxd dy dx (g_ny dst) (g_nx dst) pre n1 n2 post Hne Hok).
+  reflexivity.
+Qed.
